@@ -120,14 +120,22 @@ def run_harnesses(repo, groups, tier, work, seed):
     env = dict(os.environ, CARGO_NET_OFFLINE='true', CARGO_TARGET_DIR=os.path.join(scratch, 'target'))
     t0 = time.time()
     timed_out = False
+    # own process group, so that a timeout also ends the cbmc grandchildren
+    import signal
+    outf = open(os.path.join(work, 'kani_out.txt'), 'w+')
+    proc = subprocess.Popen(cmd, cwd=scratch, env=env, stdout=outf, stderr=subprocess.STDOUT, text=True, start_new_session=True)
     try:
-        p = subprocess.run(cmd, cwd=scratch, env=env, capture_output=True, text=True, timeout=tmo)
-        out = p.stdout + '\n' + p.stderr
-    except subprocess.TimeoutExpired as e:
+        proc.wait(timeout=tmo)
+    except subprocess.TimeoutExpired:
         timed_out = True
-        out = ((e.stdout or b'').decode('utf-8', 'replace') if isinstance(e.stdout, bytes) else (e.stdout or '')) + '\n' + \
-              ((e.stderr or b'').decode('utf-8', 'replace') if isinstance(e.stderr, bytes) else (e.stderr or ''))
-        subprocess.run(['pkill', '-f', scratch], capture_output=True)
+        try:
+            os.killpg(proc.pid, signal.SIGKILL)
+        except Exception:
+            pass
+        proc.wait()
+    outf.seek(0)
+    out = outf.read()
+    outf.close()
     wall = time.time() - t0
     cmdline = 'CARGO_NET_OFFLINE=true ' + ' '.join(cmd)
     # split the output into per-thread blocks
